@@ -312,7 +312,7 @@ func zeroElem(ty types.Type) string {
 	case SStr:
 		return "(VStr str_empty)"
 	case SF64:
-		return "(VFloat (fconst 0))"
+		return "(VFloat (i2f 0))"
 	}
 	return "VNil"
 }
